@@ -884,37 +884,7 @@ func hasDepthGuard(p *Program, comp []*ssa.Function) (bool, string) {
 	// put back): a reset to zero at the entry of a function of the component
 	// starts the count again at every level, and the limit is never reached
 	for k := range counters {
-		okCounter := true
-		for _, f := range comp {
-			for _, b := range f.Blocks {
-				for _, ins := range b.Instrs {
-					st, ok := ins.(*ssa.Store)
-					if !ok || fieldKey(st.Addr) != k {
-						continue
-					}
-					fine := false
-					if bo, ok := st.Val.(*ssa.BinOp); ok && (bo.Op == token.ADD || bo.Op == token.SUB) {
-						if n, ok := constInt(bo.Y); ok && n == 1 {
-							fine = true
-						}
-					}
-					if !fine {
-						os := origins(st.Val)
-						fine = len(os) > 0
-						for _, o := range os {
-							u, ok := o.(*ssa.UnOp)
-							if !ok || u.Op != token.MUL || fieldKey(u.X) != k {
-								fine = false
-							}
-						}
-					}
-					if !fine {
-						okCounter = false
-					}
-				}
-			}
-		}
-		if !okCounter {
+		if counterResetIn(comp, k) {
 			delete(counters, k)
 		}
 	}
@@ -1000,12 +970,44 @@ func hasDepthGuard(p *Program, comp []*ssa.Function) (bool, string) {
 				cond, neg = u.X, true
 			}
 			cl, ok := cond.(*ssa.Call)
-			if !ok || cl.Call.StaticCallee() == nil {
-				continue
+			passWhen := false
+			if ok && cl.Call.StaticCallee() != nil {
+				passWhen, ok = depthGuardHelper(cl.Call.StaticCallee())
+			} else if bo, isBo := cond.(*ssa.BinOp); isBo && (bo.Op == token.NEQ || bo.Op == token.EQL) {
+				// err := vm.enterCall(); if err != nil { return … }
+				var ev ssa.Value
+				if isNilConst(bo.Y) {
+					ev = bo.X
+				} else if isNilConst(bo.X) {
+					ev = bo.Y
+				}
+				ok = false
+				if ec, isCall := ev.(*ssa.Call); isCall && ec.Call.StaticCallee() != nil && depthGuardHelperErr(ec.Call.StaticCallee()) {
+					ok = true
+					// the condition is true when …
+					passWhen = bo.Op == token.EQL // `err == nil` true: go on
+					if neg {
+						passWhen = !passWhen
+						neg = false
+					}
+					// map onto "call result true means pass" used below
+					cond = ev
+					if !passWhen {
+						// `err != nil` true means refuse: the pass side is the false edge
+						neg, passWhen = true, true
+					}
+				}
+			} else {
+				ok = false
 			}
-			passWhen, ok := depthGuardHelper(cl.Call.StaticCallee())
 			if !ok {
 				continue
+			}
+			// (a counter that the component itself resets counts nothing)
+			if hc, isCall := cond.(*ssa.Call); isCall && hc.Call.StaticCallee() != nil {
+				if k := helperCounter(hc.Call.StaticCallee()); k != "" && counterResetIn(comp, k) {
+					continue
+				}
 			}
 			passIdx := 0
 			if passWhen == neg {
@@ -3836,16 +3838,183 @@ func ruleCtxFlow(p *Program, r *Reporter) {
 	}
 }
 
+// counterResetIn: some function of the component stores into the counter
+// field something other than one more, one less, or a value loaded from it.
+func counterResetIn(comp []*ssa.Function, k string) bool {
+	for _, f := range comp {
+		for _, b := range f.Blocks {
+			for _, ins := range b.Instrs {
+				st, ok := ins.(*ssa.Store)
+				if !ok || fieldKey(st.Addr) != k {
+					continue
+				}
+				fine := false
+				if bo, ok := st.Val.(*ssa.BinOp); ok && (bo.Op == token.ADD || bo.Op == token.SUB) {
+					if n, ok := constInt(bo.Y); ok && n == 1 {
+						fine = true
+					}
+					// several levels given back at once (`depth -= levels`, the levels
+					// counted as they were entered): the counter less something that
+					// is not the counter
+					if bo.Op == token.SUB && !fine {
+						if ld, ok := bo.X.(*ssa.UnOp); ok && ld.Op == token.MUL && fieldKey(ld.X) == k {
+							usesCounter := false
+							for _, o := range origins(bo.Y) {
+								if u, ok := o.(*ssa.UnOp); ok && u.Op == token.MUL && fieldKey(u.X) == k {
+									usesCounter = true
+								}
+							}
+							fine = !usesCounter
+						}
+					}
+				}
+				if !fine {
+					fine = savedCounterValue(st.Val, k, 0, map[ssa.Value]bool{})
+				}
+				if !fine {
+					return true
+				}
+			}
+		}
+	}
+	return false
+}
+
+// savedCounterValue: v is a value the counter had before — loaded from the
+// field, possibly kept in a local variable in between (also one that a
+// deferred function literal captured).
+func savedCounterValue(v ssa.Value, k string, depth int, seen map[ssa.Value]bool) bool {
+	if v == nil || depth > 6 || seen[v] {
+		return false
+	}
+	seen[v] = true
+	fromCell := func(cell ssa.Value) bool {
+		al, ok := cell.(*ssa.Alloc)
+		if !ok || al.Referrers() == nil {
+			return false
+		}
+		n := 0
+		for _, ref := range *al.Referrers() {
+			if st, ok := ref.(*ssa.Store); ok && st.Addr == ssa.Value(al) {
+				n++
+				if !savedCounterValue(st.Val, k, depth+1, seen) {
+					return false
+				}
+			}
+		}
+		return n > 0
+	}
+	switch x := v.(type) {
+	case *ssa.UnOp:
+		if x.Op != token.MUL {
+			return false
+		}
+		if fieldKey(x.X) == k {
+			return true
+		}
+		if _, ok := x.X.(*ssa.Alloc); ok {
+			return fromCell(x.X)
+		}
+		if fv, ok := x.X.(*ssa.FreeVar); ok {
+			fn := fv.Parent()
+			idx := -1
+			for i, q := range fn.FreeVars {
+				if q == fv {
+					idx = i
+				}
+			}
+			if idx < 0 || fn.Parent() == nil {
+				return false
+			}
+			n := 0
+			for _, b := range fn.Parent().Blocks {
+				for _, ins := range b.Instrs {
+					if mc, ok := ins.(*ssa.MakeClosure); ok && mc.Fn == ssa.Value(fn) && idx < len(mc.Bindings) {
+						n++
+						if !fromCell(mc.Bindings[idx]) {
+							return false
+						}
+					}
+				}
+			}
+			return n > 0
+		}
+	case *ssa.FreeVar:
+		// captured by value
+		fn := x.Parent()
+		idx := -1
+		for i, q := range fn.FreeVars {
+			if q == x {
+				idx = i
+			}
+		}
+		if idx < 0 || fn.Parent() == nil {
+			return false
+		}
+		n := 0
+		for _, b := range fn.Parent().Blocks {
+			for _, ins := range b.Instrs {
+				if mc, ok := ins.(*ssa.MakeClosure); ok && mc.Fn == ssa.Value(fn) && idx < len(mc.Bindings) {
+					n++
+					if !savedCounterValue(mc.Bindings[idx], k, depth+1, seen) {
+						return false
+					}
+				}
+			}
+		}
+		return n > 0
+	case *ssa.Phi:
+		for _, e := range x.Edges {
+			if !savedCounterValue(e, k, depth+1, seen) {
+				return false
+			}
+		}
+		return len(x.Edges) > 0
+	}
+	return false
+}
+
+// helperCounter: the field a depth-guard helper increments.
+func helperCounter(h *ssa.Function) string {
+	for _, b := range h.Blocks {
+		for _, ins := range b.Instrs {
+			if st, ok := ins.(*ssa.Store); ok {
+				if bo, ok := st.Val.(*ssa.BinOp); ok && bo.Op == token.ADD {
+					if n, ok := constInt(bo.Y); ok && n == 1 && fieldKey(st.Addr) != "" {
+						return fieldKey(st.Addr)
+					}
+				}
+			}
+		}
+	}
+	return ""
+}
+
 // depthGuardHelper: h increments a counter field by one, compares it with a
 // constant, and its boolean result tells which side of that test was taken:
 // every return on the side where the counter is within the limit is the
 // constant passWhen, every other return is the opposite constant.
 func depthGuardHelper(h *ssa.Function) (passWhen bool, ok bool) {
+	return depthGuardHelperKind(h, false)
+}
+
+// depthGuardHelperErr: the same with an error for a result: nil on the side
+// where the counter is within the limit, an error on the other.
+func depthGuardHelperErr(h *ssa.Function) bool {
+	pw, ok := depthGuardHelperKind(h, true)
+	return ok && pw
+}
+
+func depthGuardHelperKind(h *ssa.Function, wantErr bool) (passWhen bool, ok bool) {
 	rs := h.Signature.Results()
 	if rs.Len() != 1 || len(h.Blocks) == 0 {
 		return false, false
 	}
-	if b, isB := rs.At(0).Type().Underlying().(*types.Basic); !isB || b.Kind() != types.Bool {
+	if wantErr {
+		if !isErrorType(rs.At(0).Type()) {
+			return false, false
+		}
+	} else if b, isB := rs.At(0).Type().Underlying().(*types.Basic); !isB || b.Kind() != types.Bool {
 		return false, false
 	}
 	for _, b := range h.Blocks {
@@ -3912,14 +4081,31 @@ func depthGuardHelper(h *ssa.Function) (passWhen bool, ok bool) {
 			if !isRet {
 				continue
 			}
-			c, isC := returnOperand(ret, 0).(*ssa.Const)
-			if !isC || c.Value == nil || c.Value.Kind() != constant.Bool {
-				return false, false
+			var val bool
+			if wantErr {
+				// nil is "go on" (true), anything made on the spot is a refusal
+				switch x := returnOperand(ret, 0).(type) {
+				case *ssa.Const:
+					if !x.IsNil() {
+						return false, false
+					}
+					val = true
+				case *ssa.Call, *ssa.MakeInterface:
+					val = false
+				default:
+					return false, false
+				}
+			} else {
+				c, isC := returnOperand(ret, 0).(*ssa.Const)
+				if !isC || c.Value == nil || c.Value.Kind() != constant.Bool {
+					return false, false
+				}
+				val = constant.BoolVal(c.Value)
 			}
 			if rb == wb || wb.Dominates(rb) {
-				inside = append(inside, constant.BoolVal(c.Value))
+				inside = append(inside, val)
 			} else {
-				outside = append(outside, constant.BoolVal(c.Value))
+				outside = append(outside, val)
 			}
 		}
 		if len(inside) == 0 || len(outside) == 0 {
